@@ -31,14 +31,14 @@ THEOREMS = {
             "Cntgs.C17.copy_fault_unchanged"],
     "C05": ["Cntgs.C05.fields_greedy", "Cntgs.C05.alignUp_is_lowest", "Cntgs.C05.elements_greedy", "Cntgs.C05.units_tight",
             "Cntgs.elemSize_fixed", "Cntgs.elemSize_bound"],
-    "C01": ["Cntgs.C01.history_offset_table_partial", "Cntgs.C01.history_stride", "Cntgs.C01.history_cap",
+    "C01": ["Cntgs.C01.history_offset_table_partial", "Cntgs.C01.history_offset_table_no_overlap", "Cntgs.C01.history_stride", "Cntgs.C01.history_cap",
             "Cntgs.C01.erase_returns_follower", "Cntgs.VarInv.history", "Cntgs.FixInv.history_all", "Cntgs.VarInv.history_noreloc",
             "Cntgs.VarInv.abs_eq", "Cntgs.FixInv.abs_eq"],
     "C02": ["Cntgs.C02.units_cover", "Cntgs.C02.fit_stride", "Cntgs.C02.history_stride_inside", "Cntgs.elemSize_fixed", "Cntgs.fixed_fit",
             "Cntgs.elemSize_bound", "Cntgs.szGo_sound", "Cntgs.C02.fit_offset_table", "Cntgs.C02.reserve_room",
             "Cntgs.C02.history_offset_table_inside"],
     "C06": ["Cntgs.C06.lifetimes_offset_table", "Cntgs.C06.lifetimes_stride", "Cntgs.C06.history_offset_table_partial",
-            "Cntgs.C06.history_stride", "Cntgs.C06.history_no_relocation", "Cntgs.C06.erase_destroys_exactly",
+            "Cntgs.C06.history_stride", "Cntgs.C06.history_no_relocation", "Cntgs.C06.history_no_overlap", "Cntgs.VarInv.eraseRange_elementwise", "Cntgs.FixInv.eraseRange_elementwise", "Cntgs.C06.erase_destroys_exactly",
             "Cntgs.C06.overlap_counter_witness", "Cntgs.C06.moved_from_holds_nothing"],
     "C09": ["Cntgs.C09.copy_construction", "Cntgs.C09.copy_construction_failed", "Cntgs.C09.independent", "Cntgs.C09.move_construction",
             "Cntgs.C09.swap_exchanges", "Cntgs.C09.self_operations", "Cntgs.C09.copy_assignment", "Cntgs.C09.move_assignment_steal",
